@@ -340,6 +340,16 @@ def alias_reset(ctx):
     # and nothing is inserted before the clear
     ins = [t for t in ua.calls() if (t.path or "").endswith("IndexMap::insert") and narrow(prov, ua, t.args[0]).has_field("type_aliases", "encoding::Scope")]
     ok = ok and all(any(cfg.dominates(c.bb, i.bb) for c in clears) for i in ins)
+    # … and it is not re-entered while it collects: nothing it calls may (transitively) run use_aliases again on the same scope —
+    # the nested run would clear the aliases collected so far
+    inner = set()
+    for t in ua.calls():
+        c = db.fns.get(t.path or "")
+        if c is not None and c.crate == "wac_graph":
+            inner |= db.reachable([c.id])
+    ctx.ob("R01.2", "alias-collect-not-reentered", ua.id not in inner,
+           "use_aliases calls nothing that runs use_aliases again" if ua.id not in inner else
+           "use_aliases calls into the encoder (import_deps -> instance -> use_aliases) while collecting: the nested run clears the current scope's aliases, so a used resource is later written as a fresh `(sub resource)`", site=ua.span)
     ctx.ob("R01.2", "alias-reset|use_aliases", ok, "type_aliases is cleared on every path through use_aliases before anything is recorded" if ok else
            "use_aliases can return without clearing type_aliases: stale aliases of the previous interface leak into the next one", site=ua.span)
     for name in ("instance", "component"):
